@@ -512,6 +512,49 @@ func checkBackendTables(c *Ctx) {
 			}
 		}
 	}
+	// (a2) PrefixDB bound translation
+	for _, name := range []string{"*PrefixDB.Iterator", "*PrefixDB.ReverseIterator"} {
+		fn := l.Func("db", name)
+		if fn == nil {
+			c.anchorMissing("TABLE-backend-iterators", name)
+			continue
+		}
+		for _, eNil := range []bool{true, false} {
+			eNil := eNil
+			env := &tableEnv{l: l, flag: map[string]int{}, cmp: func(a, b string) (int, bool) { return 0, false }}
+			env.recv = fn.Params[0].Name()
+			env.ints = func(v ssa.Value, role string) (int64, bool) {
+				if strings.HasPrefix(role, "len(") {
+					return 3, true // non-empty bounds
+				}
+				return 0, false
+			}
+			env.isNil = func(role string) int {
+				switch role {
+				case "arg0":
+					return -1
+				case "arg1":
+					return b2i(eNil)
+				}
+				return 0
+			}
+			w := &walker{vals: map[ssa.Value]int{}}
+			w.env = &walkEnv{evalAtom: env.atom}
+			var got string
+			w.onCall = func(w *walker, call *ssa.Call) {
+				if call.Call.IsInvoke() && (call.Call.Method.Name() == "Iterator" || call.Call.Method.Name() == "ReverseIterator") {
+					got = call.Call.Method.Name() + "(" + roleOf(l, w.resolve(call.Call.Args[0]), env.recv, 0) + ", " + roleOf(l, w.resolve(call.Call.Args[1]), env.recv, 0) + ")"
+				}
+			}
+			ret, _ := w.run(fn)
+			m := strings.TrimPrefix(name, "*PrefixDB.")
+			want := m + "(append(cp(prefix),arg0), append(cp(prefix),arg1))"
+			if eNil {
+				want = m + "(append(cp(prefix),arg0), cpIncr(prefix))"
+			}
+			c.decide("TABLE-backend-iterators", fmt.Sprintf("PrefixDB.%s bounds, end absent=%v", m, eNil), l.pos(fn.Pos()), got == want && ret != nil, got, "inner call is `"+got+"`, the translation is `"+want+"`")
+		}
+	}
 	// (b) LevelDB Valid cut-off
 	if fn := l.Func("db", "*goLevelDBIterator.Valid"); fn == nil {
 		c.anchorMissing("TABLE-backend-iterators", "goLevelDBIterator.Valid")
